@@ -986,3 +986,106 @@ func TestKF_mnorm(t *testing.T) {
 	r.Mnorm(m)
 	obs.KFStatus("C02/mnorm-sum-of-squares", r.GetFloat64() == 25, fmt.Sprintf("Mnorm([[3,0],[0,4]])=%v, Frobenius norm is 5", r.GetFloat64()))
 }
+
+// ---------------------------------------------------------------------------------------------
+// aspect: typed_setters — SetInt8 .. SetInt64, SetInt, SetFloat32, SetFloat64 store the value that Go's
+// conversion of the argument to the receiver's storage type gives; Real receivers drop their
+// derivatives (a plain value has none)
+
+func TestC02_typed_setters(t *testing.T) {
+	setters := []string{"SetInt8", "SetInt16", "SetInt32", "SetInt64", "SetInt", "SetFloat32", "SetFloat64"}
+	rapid.Check(t, func(t *rapid.T) {
+		recv := gen.DrawType(t, "recv", gen.MutableTypes)
+		set := setters[rapid.IntRange(0, len(setters)-1).Draw(t, "setter")]
+		// the receiver's previous content, with derivatives for Real types
+		r := recv.NewMut(float64(rapid.IntRange(-5, 5).Draw(t, "before")))
+		if recv.IsReal() {
+			order := rapid.IntRange(0, 2).Draw(t, "order")
+			if order > 0 {
+				m := r.(MagicScalar)
+				m.Alloc(2, order)
+				m.SetDerivative(0, 1.5)
+				m.SetDerivative(1, -2)
+				if order > 1 {
+					m.SetHessian(0, 1, 0.25)
+					m.SetHessian(1, 0, 0.25)
+				}
+			}
+		}
+		var want float64
+		var desc string
+		toRecvInt := func(v int64) float64 {
+			// integer to integer conversions wrap (defined by the language); to floats they round
+			if recv.IsInt() {
+				switch recv.Bits {
+				case 8:
+					return float64(int8(v))
+				case 16:
+					return float64(int16(v))
+				case 32:
+					return float64(int32(v))
+				}
+				return float64(v)
+			}
+			if recv.Bits == 32 {
+				return float64(float32(v))
+			}
+			return float64(v)
+		}
+		var perr string
+		switch set {
+		case "SetInt8":
+			v := int8(rapid.IntRange(math.MinInt8, math.MaxInt8).Draw(t, "v"))
+			want, desc = toRecvInt(int64(v)), fmt.Sprint(v)
+			perr = call(func() { r.SetInt8(v) })
+		case "SetInt16":
+			v := int16(rapid.IntRange(math.MinInt16, math.MaxInt16).Draw(t, "v"))
+			want, desc = toRecvInt(int64(v)), fmt.Sprint(v)
+			perr = call(func() { r.SetInt16(v) })
+		case "SetInt32":
+			v := int32(rapid.IntRange(math.MinInt32, math.MaxInt32).Draw(t, "v"))
+			want, desc = toRecvInt(int64(v)), fmt.Sprint(v)
+			perr = call(func() { r.SetInt32(v) })
+		case "SetInt64":
+			v := rapid.Int64().Draw(t, "v")
+			want, desc = toRecvInt(v), fmt.Sprint(v)
+			perr = call(func() { r.SetInt64(v) })
+		case "SetInt":
+			v := rapid.Int().Draw(t, "v")
+			want, desc = toRecvInt(int64(v)), fmt.Sprint(v)
+			perr = call(func() { r.SetInt(v) })
+		case "SetFloat32":
+			// in the range of every integer type: float to integer conversion is defined only there
+			v := float32(rapid.IntRange(-1000, 1000).Draw(t, "v8")) / 8
+			want, desc = recv.Conv(float64(v)), fmt.Sprint(v)
+			perr = call(func() { r.SetFloat32(v) })
+		case "SetFloat64":
+			v := float64(rapid.IntRange(-1000, 1000).Draw(t, "v8")) / 8
+			want, desc = recv.Conv(v), fmt.Sprint(v)
+			perr = call(func() { r.SetFloat64(v) })
+		}
+		c := obs.Begin("typed_setters", "%s.%s(%s)", recv, set, desc)
+		c.Classf("recv=%s", recv)
+		c.Classf("setter=%s", set)
+		c.NT(true)
+		if perr != "" {
+			t.Fatalf("%s panicked: %s", c.Desc(), perr)
+		}
+		if got := r.GetFloat64(); got != want {
+			t.Fatalf("%s: the receiver holds %v, the conversion of the argument to its storage type is %v", c.Desc(), got, want)
+		}
+		if recv.IsReal() {
+			for i := 0; i < r.GetN() && r.GetOrder() >= 1; i++ {
+				if r.GetDerivative(i) != 0 {
+					t.Fatalf("%s: derivative %d is still %v after a plain value was stored", c.Desc(), i, r.GetDerivative(i))
+				}
+				for j := 0; j < r.GetN() && r.GetOrder() >= 2; j++ {
+					if r.GetHessian(i, j) != 0 {
+						t.Fatalf("%s: Hessian entry %d,%d is still %v after a plain value was stored", c.Desc(), i, j, r.GetHessian(i, j))
+					}
+				}
+			}
+		}
+		c.End()
+	})
+}
